@@ -196,6 +196,17 @@ def dtcwt(rep, pid, tier, what):
         for k, (b, q) in enumerate(pairs):
             H, W, J = sizes[k % len(sizes)]
             cases.append((b, q, H, W, J) + ((2, 3) if k % 2 == 0 else (1, 2)))
+        # EVERY q-shift family and every level-1 family meets a large input (the five q-shift sets have 10 to 18 taps - 16 for
+        # qshift_c -, so an edge / interior split that is right for four of them can be wrong for the fifth, and only where an
+        # axis is long compared with the filter: levels 2 and 3 of these sizes still have more than 8 x 18 = 144 samples)
+        bi = ["near_sym_a", "near_sym_b", "antonini", "legall"]
+        qs = ["qshift_06", "qshift_a", "qshift_b", "qshift_c", "qshift_d"]
+        for k, q in enumerate(qs):
+            cases.append((bi[k % 4], q, 296 + 2 * k, 612 - 4 * k, 3, 1, 1))
+        if tier != "quick":
+            for k, q in enumerate(qs):
+                for kb, b in enumerate(bi):
+                    cases.append((b, q, 1160 + 4 * k + 2 * kb, 300 + 2 * k, 4, 1, 1))
         # ... and WIDE inputs: more channels than any slab / group size a code path may process at once (small images)
         cases += [("near_sym_a", "qshift_a", 20, 24, 3, 1, 67), ("near_sym_b", "qshift_b", 16, 12, 2, 1, 131)]
         if tier != "quick":
@@ -279,9 +290,17 @@ def swt(rep, pid, tier):
     dwtlib.f64()
     rng = np.random.default_rng(65000 + seed())
     n = 0
-    for name, (H, W), J in (("db2", (256, 72), 3), ("bior2.2", (80, 272), 4), ("haar", (144, 136), 3), ("db2", (16, 24), 2)):
+    # beyond every size threshold (census: the default ladder up to 2^22 elements plus the constants of the library's source), with a
+    # LONG filter and J = 2: a working-set estimate like numel * itemsize * (L + 3) crosses any plausible budget here, and the
+    # axis lengths are multiples of 4 but not of 3, 5 or 7 (strip / chunk remainders)
+    from . import census
+    side = int(np.ceil(np.sqrt((max(census.thresholds()) + 1) / 2) / 4)) * 4
+    while side % 3 == 0 or side % 5 == 0 or side % 7 == 0:
+        side += 4
+    big = ("sym8", (side, side + 8 if (side + 8) % 3 else side + 16), 2)
+    for name, (H, W), J in (("db2", (256, 72), 3), ("bior2.2", (80, 272), 4), ("haar", (144, 136), 3), ("db2", (16, 24), 2), big):
         w = pywt.Wavelet(name)
-        x = rng.standard_normal((2, 3, H, W) if H > 16 else (1, 67, H, W))       # the last one: WIDE (67 channels) instead of large
+        x = rng.standard_normal((2, 1, H, W) if H > 1000 else (2, 3, H, W) if H > 16 else (1, 67, H, W))       # (16, 24): WIDE (67 channels) instead of large
         ref = pywt.swt2(x, w, level=J, axes=(-2, -1))
         cfg = dict(wavelet=name, H=H, W=W, J=J)
         rep.validated()
